@@ -261,7 +261,7 @@ theorem keptM_guids_nodup (src : Source) (kinds : List Kind) (ids : List Nat) :
 theorem queryByIntervalGuids_meets (src : Source) (wf : SrcWF src) (gw : GcWF src) (kinds : List Kind)
     (ids : List Nat) (hids : ids.Nodup) (hnv : ∀ c ∈ src.children, c.kind ≠ .var) (bs be : Int)
     (hb : selfBounds src = some (bs, be)) (hne : src.par.hasSeq = true → bs < be)
-    (hin : src.par.hasSeq = true → ∀ c ∈ src.children, bs ≤ c.start ∧ c.stop ≤ be) :
+    (hin : src.par.hasSeq = true → IdDomain src bs be src.children) :
     okQueryByIntervalGuids src kinds ids (toAns (queryByIntervalGuids src kinds ids)) = true := by
   have hndI : ((iterChildren src).map Child.guid).Nodup :=
     (((iterChildren_perm src).map Child.guid).nodup_iff).mpr wf.guids
@@ -346,9 +346,10 @@ theorem queryByIntervalGuids_meets (src : Source) (wf : SrcWF src) (gw : GcWF sr
       exact (mem_keptM src wf gw kinds ids (reducedM ids c a b)).mpr ⟨c, a, b, ho, rfl⟩
   · exact hS
   · exact hne
-  · intro hs y hy
+  · intro hs
+    refine (hin hs).imp (fun h y hy => ?_) id
     obtain ⟨c, a, b, ho, rfl⟩ := (mem_keptS src gw kinds ids hids y).mp hy
-    have h1 := hin hs c ho.1
+    have h1 := h c ho.1
     have h2 := (hown c a b ho).2
     simp only [reducedS]
     omega
